@@ -190,6 +190,10 @@ func init() {
 		st.expects = append(st.expects[:len(st.expects):len(st.expects)], Expect{ID: id, Cond: args[1].(*Term)})
 		return one(st, nil)
 	}
+	vpAPI["vpMapOrderReset"] = func(e *Engine, st *State, args []Value, fn *ssa.Function) []Outcome {
+		delete2(st, "maporder.mode")
+		return one(st, nil)
+	}
 	vpAPI["vpEndExpect"] = func(e *Engine, st *State, args []Value, fn *ssa.Function) []Outcome {
 		st.expects = nil
 		return one(st, nil)
